@@ -172,3 +172,69 @@ class NeedsPassword(Contract):
 
     def ensures(self, c, old, result, self_):
         return [("reports-the-flag-set-by-the-header-reader", eq(result, old.f(self_, "password_protected")))]
+
+
+# ---------------------------------------------------------------------------------------------- ArchiveFile.crc32
+@contract
+class ArchiveFileCrc32(Contract):
+    """the CRC shown by list()/getinfo() and compared on extraction is the member's stored digest, whatever its value
+    (0 is a legitimate CRC-32), and None exactly when the header stores none"""
+
+    target = PY + "ArchiveFile.crc32"
+    props = ("C10", "C04")
+    inline = ("py7zr:ArchiveFile._get_property",)
+
+    def setup(self, c):
+        info = c.dict_of({"digest": c.int("digest")}, presence={"digest": c.bool("has_digest")})
+        self_ = c.obj("ArchiveFile", "py7zr.py7zr", _file_info=info)
+        return {"self_": self_, "_info": info}
+
+    def call_args(self, bound):
+        return [bound["self_"]], {}
+
+    def requires(self, c, self_, _info):
+        return [("digest-is-a-crc32", And(c.dict_items(_info)["digest"] >= 0, c.dict_items(_info)["digest"] < (1 << 32)))]
+
+    def ensures(self, c, old, result, self_, _info):
+        has = c.raw(_info, "presence")["digest"] if not getattr(c, "concrete", False) else ("digest" in _info)
+        dg = c.dict_items(_info)["digest"] if not getattr(c, "concrete", False) else _info.get("digest")
+        if getattr(c, "concrete", False):
+            return [("stored-digest-or-none", (result == dg and result is not None) if has else result is None)]
+        return [("stored-digest-when-present", Implies(has, And(result is not None, (result == dg) if result is not None else False))), ("none-when-absent", Implies(Not(has), result is None))]
+
+
+# ---------------------------------------------------------------------------------------------- SevenZipFile._is_solid
+@contract
+class IsSolid(Contract):
+    """archiveinfo().solid: True exactly when some folder packs more than one member"""
+
+    target = PY + "SevenZipFile._is_solid"
+    props = ("C10",)
+    abstract = True  # only for the object graph self.header.main_streams.substreamsinfo; the list and the arithmetic are exact
+
+    def setup(self, c):
+        nus = c.int_list("nus")
+        ss = c.obj("SubstreamsInfo", "py7zr.archiveinfo", num_unpackstreams_folders=nus)
+        ms = c.obj("StreamsInfo", "py7zr.archiveinfo", substreamsinfo=ss)
+        hd = c.obj("Header", "py7zr.archiveinfo", main_streams=ms)
+        return {"self_": c.obj("SevenZipFile", "py7zr.py7zr", header=hd), "_nus": nus}
+
+    def call_args(self, bound):
+        return [bound["self_"]], {}
+
+    def fresh_result(self, c, **b):
+        return c.bool("solid")
+
+    def ensures(self, c, old, result, self_, _nus):
+        xs = c.view(_nus)
+        from contracts.sections import exists_of
+
+        some = exists_of(c, "folder-with-several", xs, lambda x: x > 1)
+        return [("solid-iff-some-folder-holds-several-members", (result is True or (result is not False and result)) == some if getattr(c, "concrete", False) else (V.truthy(result) == some))]
+
+    def loops(self):
+        def inv(c, Lp):
+            xs = c.view(c.bound["_nus"])
+            return [("none-so-far", ForAll(lambda k: nth(xs, k) <= 1, guard=lambda k: And(k >= 0, k < Lp.i), over=xs))]
+
+        return {"py7zr:SevenZipFile._is_solid#loop0": LoopSpec("for-f", inv)}
